@@ -375,7 +375,7 @@ func vh_C18_split_attributes() {
 
 // (e) loading joins the parts in index order 0,1,2,… whatever order the browser lists them in,
 // for more than ten parts too (N_10 sorts before N_2 as text)
-// verif: unwind=16 strlen=4 tunwind=16 tstrlen=6
+// verif: unwind=16 strlen=4 tunwind=16 tstrlen=6 also=C01
 func vh_C10_load_order() {
 	name := vName(ndChoice("name", 2))
 	k := 2 + ndChoice("parts", 12) // 2..13
